@@ -3,8 +3,9 @@
 
   K1  `!==` is the exact negation of `===`; both bound with exactly two operands,
       (operand 0, operand 1) in order;
-  K2  kind-pair matrix of the strict predicate (36 pairs, the pointer-identity
-      shortcut excluded — see K3) equals ECMA-262 IsStrictlyEqual on JSON kinds
+  K2  kind-pair matrix of the strict predicate (36 pairs, read off its decision
+      cases with both kinds fixed — rules/pairs.py decision_matrix — the
+      pointer-identity shortcut excluded, see K3) equals ECMA-262 IsStrictlyEqual on JSON kinds
       (spec/arms/strict_eq.json): only the four diagonal primitive pairs can be
       true — Null constant true, Bool/String by equality of both payloads, Number
       by float Eq of as_f64 of both payloads (so 1 ≡ 1.0, 0 ≡ -0; no integer
@@ -32,7 +33,7 @@ VALUE = "serde_json::Value"
 
 def run(ctx):
     ctx.explanation = __doc__
-    ctx.rule = "instances = 36 kind pairs + negation/binding + freshness facts of the operand vector + arm agreement with ==; non-trivial = specialisation / def-use"
+    ctx.rule = "instances = 36 kind pairs + negation/binding + freshness facts of the operand vector + arm agreement with ==; non-trivial = decision cases / def-use"
     ctx.trusted = ["spec/arms/strict_eq.json transcribes ECMA-262 7.2.15", "IEEE equality on doubles (1 == 1.0, 0 == -0)", "Vec<Value> elements are distinct objects"]
     spec = json.load(open(os.path.join(VERIF, "spec", "arms", "strict_eq.json")))["matrix"]
     from . import manifest as _MF
